@@ -30,6 +30,9 @@ theorem pending_softConn (s : S) (f : Conn → Conn) : (softConn s f).w.pending 
 theorem pending_deliverDue (s : S) (e : Timed) : (deliverDue s e).w.pending = removeFirst s.w.pending e := by
   unfold deliverDue; rw [pending_softConn]
 
+theorem cancelDue_unarmed {s : S} (h : s.w.cancelAt = none) (t : Nat) : cancelDue s t = none := by
+  unfold cancelDue; rw [h]
+
 theorem applyEvent_data_closing (c : Conn) (b : Bytes) (h : c.closing = false) :
     (applyEvent (.data b) c).closing = false := by
   unfold applyEvent
@@ -44,6 +47,7 @@ structure Ready (s : S) (c : Conn) : Prop where
   queue : c.queue = []
   quiet : s.w.pending = []
   key : c.core.v3 = true → ∃ k, c.core.localKey = some k
+  unarmed : s.w.cancelAt = none
 
 /-- the connection after one more write -/
 def wrote (c : Conn) : Conn :=
@@ -58,13 +62,13 @@ theorem wrote_cid (c : Conn) : (wrote c).core.cid = c.core.cid := by unfold wrot
 theorem opWrite_ready {rx : Reactions} {s : S} {c : Conn} (frame : Bytes) (h : Ready s c) :
     ∃ s1, opWrite rx s frame = .ok s1 ∧ s1.l.conn = some (wrote c) ∧ s1.w.now = s.w.now ∧
       s1.w.pending = (rx c.core.cid c.core.nWrites).map (fun r => ⟨s.w.now + r.1, c.core.cid, r.2⟩) ∧
-      nData (evsOf s1) = nData (evsOf s) + 1 := by
+      nData (evsOf s1) = nData (evsOf s) + 1 ∧ s1.w.cancelAt = none := by
   by_cases hv : c.core.v3 = true
   · obtain ⟨k, hk⟩ := h.key hv
     have hw : opWrite rx s frame = .ok (react rx (setCore (logEv s (.wrData c.core.cid c.core.packetId k frame)) c
         (bump c.core)) c.core.cid c.core.nWrites) := by
       simp [opWrite, isV3, h.conn, hv, opWriteData, hk, h.open_]
-    refine ⟨_, hw, ?_, rfl, ?_, ?_⟩
+    refine ⟨_, hw, ?_, rfl, ?_, ?_, h.unarmed⟩
     · simp [react, setCore, wrote, hv]
     · simp [react, setCore, logEv, h.quiet]
     · simp [react, setCore, logEv, evsOf, nData]
@@ -73,7 +77,7 @@ theorem opWrite_ready {rx : Reactions} {s : S} {c : Conn} (frame : Bytes) (h : R
     have hw : opWrite rx s frame = .ok (react rx (setCore (logEv s (.wrV2 c.core.cid frame)) c
         { c.core with nWrites := c.core.nWrites + 1 }) c.core.cid c.core.nWrites) := by
       simp [opWrite, isV3, h.conn, hv', opWriteV2, h.open_]
-    refine ⟨_, hw, ?_, rfl, ?_, ?_⟩
+    refine ⟨_, hw, ?_, rfl, ?_, ?_, h.unarmed⟩
     · simp [react, setCore, wrote, hv']
     · simp [react, setCore, logEv, h.quiet]
     · simp [react, setCore, logEv, evsOf, nData]
@@ -85,14 +89,14 @@ theorem attempt_silent {p : Params} {rx : Reactions} {s : S} {c : Conn} (frame :
     ∃ s1 s2, opWrite rx s frame = .ok s1 ∧
       awaitQueue (s1.w.pending.length + 1) s1 (s1.w.now + p.readTimeout) = (.timeout, s2) ∧
       Ready s2 (wrote c) ∧ nData (evsOf s2) = nData (evsOf s) + 1 := by
-  obtain ⟨s1, hw, hc1, hnow, hpend, hn⟩ := opWrite_ready (rx := rx) frame h
+  obtain ⟨s1, hw, hc1, hnow, hpend, hn, hca⟩ := opWrite_ready (rx := rx) frame h
   rw [hrx] at hpend
   simp only [List.map_nil] at hpend
   refine ⟨s1, setNow s1 (s1.w.now + p.readTimeout), hw, ?_, ?_, by simpa [evsOf, setNow] using hn⟩
   · rw [hpend]
-    simp [awaitQueue, queueHead, hc1, wrote, h.queue, hpend, nextDue]
+    simp [awaitQueue, queueHead, hc1, wrote, h.queue, hpend, nextDue, cancelDue_unarmed hca]
   · exact ⟨by simpa [setNow] using hc1, by simp [wrote, h.open_], by simp [wrote, h.queue], by simpa [setNow] using hpend,
-      by rw [wrote_v3, wrote_key]; exact h.key⟩
+      by rw [wrote_v3, wrote_key]; exact h.key, by simpa [setNow] using hca⟩
 
 /-- an answered transmission: the segment arrives within the read timeout, its first queued item is
     what the read returns -/
@@ -102,8 +106,8 @@ theorem attempt_answered {p : Params} {rx : Reactions} {s : S} {c : Conn} (frame
     ∃ s1 s2 c2, opWrite rx s frame = .ok s1 ∧
       awaitQueue (s1.w.pending.length + 1) s1 (s1.w.now + p.readTimeout) = (.packet pkt, s2) ∧
       s2.l.conn = some c2 ∧ c2.core = (wrote c).core ∧ nData (evsOf s2) = nData (evsOf s) + 1 ∧
-      c2.queue = rest ∧ s2.w.pending = [] ∧ c2.closing = false := by
-  obtain ⟨s1, hw, hc1, hnow, hpend, hn⟩ := opWrite_ready (rx := rx) frame h
+      c2.queue = rest ∧ s2.w.pending = [] ∧ c2.closing = false ∧ s2.w.cancelAt = none := by
+  obtain ⟨s1, hw, hc1, hnow, hpend, hn, hca⟩ := opWrite_ready (rx := rx) frame h
   rw [hrx] at hpend
   simp only [List.map_cons, List.map_nil] at hpend
   have hq1 : queueHead s1 = none := by simp [queueHead, hc1, wrote, h.queue]
@@ -124,11 +128,13 @@ theorem attempt_answered {p : Params} {rx : Reactions} {s : S} {c : Conn} (frame
   have hq1' : queueHead s1' = some pkt := by simp [queueHead, hc1', happ]
   refine ⟨s1, popQueue s1', { { applyEvent (.data b) (wrote c) with core := (wrote c).core } with
       queue := ({ applyEvent (.data b) (wrote c) with core := (wrote c).core } : Conn).queue.drop 1 }, hw, ?_, ?_, rfl, ?_,
-      by simp [happ], ?_, ?_⟩
+      by simp [happ], ?_, ?_, ?_⟩
   · have hlen : s1.w.pending.length + 1 = 1 + 1 := by rw [hpend]; rfl
     rw [hlen, awaitQueue, hq1]
     simp only
     rw [hdue]
+    simp only
+    rw [cancelDue_unarmed hca]
     simp only
     rw [awaitQueue, hq1']
   · simp [popQueue, softConn, hc1']
@@ -143,6 +149,9 @@ theorem attempt_answered {p : Params} {rx : Reactions} {s : S} {c : Conn} (frame
     rw [pending_softConn, pending_deliverDue, hpend]
     simp [removeFirst]
   · exact applyEvent_data_closing (wrote c) b h.open_
+  · show (popQueue s1').w.cancelAt = none
+    unfold popQueue
+    rw [cancelAt_softConn, cancelAt_deliverDue]; exact hca
 
 /-- the first `k` transmissions from here on are not answered -/
 def SilentFor (rx : Reactions) (c : Conn) (k : Nat) : Prop := ∀ i, i < k → rx c.core.cid (c.core.nWrites + i) = []
@@ -170,16 +179,16 @@ theorem sendLoop_answered_at {p : Params} {rx : Reactions} {frame : Bytes} (k : 
       segQueue c.core.v3 c.buffer b = pkt :: rest → decodeWith c.core.v3 c.core.localKey pkt = .ok f →
       ∃ s' c', sendLoop p rx frame n s acc = (.ok (acc ++ [f]), s') ∧ nData (evsOf s') = nData (evsOf s) + (k + 1) ∧
         s'.l.conn = some c' ∧ c'.queue = rest ∧ s'.w.pending = [] ∧ c'.closing = false ∧
-        c'.core.v3 = c.core.v3 ∧ c'.core.localKey = c.core.localKey := by
+        c'.core.v3 = c.core.v3 ∧ c'.core.localKey = c.core.localKey ∧ s'.w.cancelAt = none := by
   induction k with
   | zero =>
     intro n s c acc hk h _ d b pkt f rest hrx hd hseg hdec
     obtain ⟨n', rfl⟩ : ∃ n', n = n' + 1 := ⟨n - 1, by omega⟩
-    obtain ⟨s1, s2, c2, hw, ha, hc2, hcore, hn, hq2, hp2, hcl2⟩ := attempt_answered (p := p) (rx := rx) frame h d b pkt rest
+    obtain ⟨s1, s2, c2, hw, ha, hc2, hcore, hn, hq2, hp2, hcl2, hca2⟩ := attempt_answered (p := p) (rx := rx) frame h d b pkt rest
       (by simpa using hrx) hd hseg
     have hdr : decodeRead s2 pkt = .ok f := by
       rw [decodeRead_eq hc2, hcore, wrote_v3, wrote_key]; exact hdec
-    refine ⟨s2, c2, ?_, by simpa using hn, hc2, hq2, hp2, hcl2, by rw [hcore, wrote_v3], by rw [hcore, wrote_key]⟩
+    refine ⟨s2, c2, ?_, by simpa using hn, hc2, hq2, hp2, hcl2, by rw [hcore, wrote_v3], by rw [hcore, wrote_key], hca2⟩
     unfold sendLoop
     rw [hw]; simp only
     rw [ha]; simp only
@@ -188,10 +197,10 @@ theorem sendLoop_answered_at {p : Params} {rx : Reactions} {frame : Bytes} (k : 
     intro n s c acc hk h hsil d b pkt f rest hrx hd hseg hdec
     obtain ⟨n', rfl⟩ : ∃ n', n = n' + 1 := ⟨n - 1, by omega⟩
     obtain ⟨s1, s2, hw, ha, hr2, hn⟩ := attempt_silent (p := p) (rx := rx) frame h (by simpa using hsil 0 (by omega))
-    obtain ⟨s', c', hs', hn', g1, g2, g3, g4, g5, g6⟩ := ih n' s2 (wrote c) acc (by omega) hr2 (silentFor_wrote hsil) d b pkt f rest
+    obtain ⟨s', c', hs', hn', g1, g2, g3, g4, g5, g6, g7⟩ := ih n' s2 (wrote c) acc (by omega) hr2 (silentFor_wrote hsil) d b pkt f rest
       (by rw [wrote_cid, wrote_nWrites, show c.core.nWrites + 1 + k = c.core.nWrites + (k + 1) by omega]; exact hrx)
       hd (by rw [wrote_v3]; exact hseg) (by rw [wrote_v3, wrote_key]; exact hdec)
-    refine ⟨s', c', ?_, by rw [hn', hn]; omega, g1, g2, g3, g4, by rw [g5, wrote_v3], by rw [g6, wrote_key]⟩
+    refine ⟨s', c', ?_, by rw [hn', hn]; omega, g1, g2, g3, g4, by rw [g5, wrote_v3], by rw [g6, wrote_key], g7⟩
     unfold sendLoop
     rw [hw]; simp only
     rw [ha]; simp only
